@@ -263,7 +263,7 @@ func cmdCliCheck(args []string) {
 			so = libjson
 		}
 		line := J{"e": "cli", "n": cnt, "mode": "run", "cfg": cfg, "libst": libst, "libjson": libjson, "exit": exit, "stdout": so,
-			"msgonstderr": libmsg != "" && strings.Contains(se, firstLine), "crashed": crashed, "stderr": trunc(se, 300), "script": eff.script, "args": cliArgs, "stdin": trunc(stdin, 2000),
+			"msgonstderr": libmsg != "" && strings.Contains(se, firstLine), "crashed": crashed, "stderr": trunc(se, 300), "script": eff.script, "args": cliArgs, "stdin": stdin,
 			"nerr": 0, "ndiag": 0, "headers": 0, "allprinted": true, "resultprinted": strings.Contains(so, "\"source\"")}
 		lw.write(line)
 		outcomes[libst]++
